@@ -43,6 +43,17 @@ func write(path, s string) {
 	must(os.WriteFile(path, []byte(s), 0o644))
 }
 
+// errTy stands for Go's `error` as a result type: the model sees a *string (nil = no error, otherwise the
+// message); only the Go spelling and the way the instrumented f builds it differ.
+var errTy = ty.P(ty.B("string"))
+
+func goT(env *ty.Env, t *ty.Ty) string {
+	if t == errTy {
+		return "error"
+	}
+	return t.Go(env, "main")
+}
+
 type sig struct {
 	k      int
 	params []*ty.Ty
@@ -84,6 +95,9 @@ func shapeOf(env *ty.Env, ps []*ty.Ty) string {
 // resExpr is the Go expression (as seen from package main) of result j of the instrumented f for a
 // result of type t, from the digest expression d. Mirrored by `mkRes` in Driver/OpsMem.lean.
 func resExpr(env *ty.Env, t *ty.Ty, d string, j int) string {
+	if t == errTy {
+		return fmt.Sprintf("rt.MemResErr(%s, %d)", d, j)
+	}
 	gt := t.Go(env, "main")
 	u := env.Under(t)
 	switch u.K {
@@ -315,6 +329,17 @@ func main() {
 			s.pkg = s.k / perPkg
 			sigs = append(sigs, s)
 		}
+		// a last result of type error (alone, or after one or two values): failures are results like any other
+		if nErr := len(ps) % 3; true {
+			rs := make([]*ty.Ty, nErr+1)
+			for j := range rs {
+				rs[j] = pick(resKinds)
+			}
+			rs[nErr] = errTy
+			s := &sig{k: len(sigs), params: ps, res: rs, shape: shapeOf(env, ps)}
+			s.pkg = s.k / perPkg
+			sigs = append(sigs, s)
+		}
 	}
 	npkgs := (len(sigs) + perPkg - 1) / perPkg
 
@@ -378,7 +403,7 @@ func main() {
 			pnames = append(pnames, fmt.Sprintf("p%d", i))
 		}
 		for _, t := range s.res {
-			rts = append(rts, t.Go(env, "main"))
+			rts = append(rts, goT(env, t))
 		}
 		resStr := strings.Join(rts, ", ")
 		if len(rts) > 1 {
